@@ -33,7 +33,7 @@ if TYPE_CHECKING:
 
 
 from exabgp.bgp.message.notification import Notify
-from exabgp.bgp.message.update.attribute.aspath import SEQUENCE, SET, AS2Path
+from exabgp.bgp.message.update.attribute.aspath import CONFED_SEQUENCE, CONFED_SET, SEQUENCE, SET, AS2Path
 from exabgp.bgp.message.update.attribute.attribute import (
     Attribute,
     Discard,
@@ -584,32 +584,29 @@ class AttributeCollection(MutableMapping[int, Attribute]):
             self.add(cached, key)
             return
 
-        len2 = len(as2path.as_seq)
-        len4 = len(as4path.as_seq)
+        # RFC 6793 section 4.2.3: an AS_SET counts for one AS number, a confederation segment for none;
+        # with n2 < n4 the AS4_PATH is ignored, otherwise the n2 - n4 leading AS numbers of AS_PATH are
+        # kept, segment by segment, and AS4_PATH follows
+        def path_length(path: AS2Path) -> int:
+            return sum(
+                1 if isinstance(seg, SET) else len(seg) if isinstance(seg, SEQUENCE) else 0 for seg in path.aspath
+            )
 
-        # RFC 4893 section 4.2.3
-        if len2 < len4:
-            as_seq = as2path.as_seq
+        keep = path_length(as2path) - path_length(as4path)
+        segments: list[SET | SEQUENCE | CONFED_SEQUENCE | CONFED_SET] = []
+        if keep < 0:
+            segments.extend(as2path.aspath)
         else:
-            # keep the leading AS numbers AS4_PATH does not cover ([:-len4] is empty when len4 is 0)
-            as_seq = as2path.as_seq[: len2 - len4]
-            as_seq.extend(as4path.as_seq)
-
-        len2 = len(as2path.as_set)
-        len4 = len(as4path.as_set)
-
-        if len2 < len4:
-            as_set = as4path.as_set
-        else:
-            as_set = as2path.as_set[: len2 - len4]
-            as_set.extend(as4path.as_set)
-
-        # Build segments from merged ASN lists
-        segments: list[SET | SEQUENCE] = []
-        if as_seq:
-            segments.append(SEQUENCE(as_seq))
-        if as_set:
-            segments.append(SET(as_set))
+            for seg in as2path.aspath:
+                if keep <= 0:
+                    break
+                if isinstance(seg, SEQUENCE):
+                    segments.append(SEQUENCE(seg[:keep]))
+                    keep -= min(keep, len(seg))
+                else:
+                    segments.append(seg)
+                    keep -= 1 if isinstance(seg, SET) else 0
+            segments.extend(as4path.aspath)
         # the merged path holds the 4-byte AS numbers of AS4_PATH: it can only be stored in 4-byte form
         aspath = AS2Path.make_aspath(segments, asn4=True)
         self.add(aspath, key)
